@@ -88,7 +88,8 @@ Inductive event :=
   | EvProbe (a : aid) (o : oid)
   | EvBroker (b : aid) (w : bwhat) (a : aid) (h : hid)
   | EvTopicOp (o : oid) (c : nat) (k : topk) (topic x : nat)
-  | EvTopicRet (o : oid) (ok : bool).
+  | EvTopicRet (o : oid) (ok : bool)
+  | EvBcastEnd (a : aid) (ty : nat).
 
 (** * Decoding a line of numbers *)
 Definition dec_bool (n : nat) : bool := negb (Nat.eqb n 0).
@@ -393,6 +394,11 @@ Definition decode (l : list nat) : option event :=
     | 46 =>
       match args with
       | [o; ok] => Some (EvTopicRet o (dec_bool ok))
+      | _ => None
+      end
+    | 47 =>
+      match args with
+      | [a; ty] => Some (EvBcastEnd a ty)
       | _ => None
       end
     | _ => None
